@@ -42,7 +42,8 @@ def run_case(cls, idx, rng, obs):
     return run_ensemble(rng, obs)
 
 
-def run_wrapper(rng, obs):
+def run_wrapper(rng, obs, focus='c01'):
+    """the scipy-style one-liners; focus c02 / c03: the bounds= / constraints= keywords are in force at every evaluation"""
     from mystic.solvers import fmin, fmin_powell, diffev, diffev2
     which = rng.choice(['fmin', 'fmin_powell', 'diffev', 'diffev2'])
     dim = rng.randint(1, 4)
@@ -54,13 +55,19 @@ def run_wrapper(rng, obs):
     x0 = [round(rng.uniform(-3, 3), 2) for _ in range(dim)]
     kw = {'disp': 0, 'full_output': 1, 'retall': 1}
     box = None
-    if rng.random() < 0.5:
+    if rng.random() < (0.5 if focus != 'c02' else 1.0):
         box = K.gen_box(rng, dim, x0, shape='finite')
         kw['bounds'] = list(zip(box['lo'], box['hi']))
     cons_spec = pen_spec = None
-    if rng.random() < 0.4:
+    if rng.random() < (0.4 if focus != 'c03' else 1.0):
         cons_spec = K.gen_constraint(rng, dim, box)
         kw['constraints'] = K.make_constraint(cons_spec, inplace=rng.random() < 0.5)
+    bad_box, bad_cons = [], []
+    refc = K.ref_constraint(cons_spec) if cons_spec else None
+    def guard(seq, x):
+        if box is not None and not K.in_box(x, box) and len(bad_box) < 3: bad_box.append([seq, list(x)])
+        if refc is not None and refc(list(x)) != list(x) and len(bad_cons) < 3: bad_cons.append([seq, list(x)])
+    probe.hooks.append(guard)
     if rng.random() < 0.4:
         pen_spec = K.gen_penalty(rng, dim)
         kw['penalty'] = K.make_penalty(pen_spec)
@@ -76,6 +83,16 @@ def run_wrapper(rng, obs):
     xopt, fopt = out[0], out[1]
     allvecs = out[-1]
     xl = [float(v) for v in np.atleast_1d(xopt)]
+    if focus == 'c02':
+        obs.check(not bad_box, 'c02:cost evaluated outside the strict ranges', wrapper=which, box=[box['lo'], box['hi']], first=bad_box, cons=cons_spec, through='bounds= keyword of the wrapper')
+        if fopt is not None and math.isfinite(float(fopt)):
+            obs.check(K.in_box(xl, box), 'c02:reported best (finite energy) lies inside the box', wrapper=which, best=xl, box=[box['lo'], box['hi']])
+        obs.event('assert:c02')
+    if focus == 'c03':
+        obs.check(not bad_cons, 'c03:cost evaluated at a point violating the constraints', wrapper=which, cons=cons_spec, first=bad_cons, through='constraints= keyword of the wrapper')
+        if fopt is not None and math.isfinite(float(fopt)):
+            obs.check(refc(list(xl)) == xl, 'c03:reported solution satisfies the constraints', wrapper=which, best=xl, cons=cons_spec)
+        obs.event('assert:c03')
     refpen = K.ref_penalty(pen_spec)
     obs.event('cost_calls', probe.n)
     if fopt is not None and math.isfinite(float(fopt)):
